@@ -653,11 +653,18 @@ class SwitchController(MpfController):
         """
         del self._timed_switch_handler_delay[switch]
         current_time = self.machine.clock.get_time()
-        for k in list(self._active_timed_switches[switch].keys()):
+        timed_switches = self._active_timed_switches[switch]
+        for k in list(timed_switches.keys()):
+            # a callback reported a change of this very switch: _cancel_timed_handlers dropped everything that was
+            # pending for the old state (and the handlers of the new state may have started a new dict)
+            if self._active_timed_switches.get(switch) is not timed_switches:
+                break
             if k <= current_time:  # change to generator?
-                for entry in list(self._active_timed_switches[switch][k]):
+                for entry in list(timed_switches[k]):
+                    if self._active_timed_switches.get(switch) is not timed_switches:
+                        break
                     # check if removed by previous entry
-                    if entry not in self._active_timed_switches[switch][k]:
+                    if entry not in timed_switches[k]:
                         continue
                     if self._debug_to_console or self._debug_to_file:
                         self.debug_log(
@@ -665,7 +672,7 @@ class SwitchController(MpfController):
                             " State: %s, ms: %s", switch.name,
                             entry.state, entry.ms)
                     entry.callback()
-                del self._active_timed_switches[switch][k]
+                del timed_switches[k]
 
         self.machine.events.process_event_queue()
 
